@@ -208,6 +208,25 @@ func elementOf(v ssa.Value) (ssa.Value, bool) {
 				if ia, ok := x.X.(*ssa.IndexAddr); ok {
 					return stripConv(ia.X), true
 				}
+				// a field of a local struct variable that holds the current item (r := item; r.F)
+				addr := x.X
+				if fa, ok := addr.(*ssa.FieldAddr); ok {
+					addr = fa.X
+				}
+				if al, ok := addr.(*ssa.Alloc); ok && al.Referrers() != nil {
+					var stored ssa.Value
+					n := 0
+					for _, r := range *al.Referrers() {
+						if st, isSt := r.(*ssa.Store); isSt && st.Addr == ssa.Value(al) {
+							stored = st.Val
+							n++
+						}
+					}
+					if n == 1 {
+						v = stored
+						continue
+					}
+				}
 			}
 			return nil, false
 		case *ssa.TypeAssert:
@@ -235,19 +254,27 @@ func elementOf(v ssa.Value) (ssa.Value, bool) {
 // the "found equal" exit does not reach target within the same iteration of
 // the loop enclosing target (or at all, when target is in no loop).
 func membershipGuard(fn *ssa.Function, isMember func(ssa.Value) bool, target *ssa.BasicBlock) (ok bool, memIf *ssa.If, coll ssa.Value) {
+	memNeg := false // the test is a != : its false side is the "equal" side
 	for _, b := range fn.Blocks {
 		i, isIf := b.Instrs[len(b.Instrs)-1].(*ssa.If)
 		if !isIf {
 			continue
 		}
 		x, y, isEq := isEqualityCall(i.Cond)
+		neg := false
+		if !isEq {
+			// a plain == / != of two values (strings, integers)
+			if bo, isB := i.Cond.(*ssa.BinOp); isB && (bo.Op == token.EQL || bo.Op == token.NEQ) {
+				x, y, isEq, neg = stripConv(bo.X), stripConv(bo.Y), true, bo.Op == token.NEQ
+			}
+		}
 		if !isEq {
 			continue
 		}
 		for _, pr := range [][2]ssa.Value{{x, y}, {y, x}} {
 			if isMember(pr[0]) {
 				if c, found := elementOf(pr[1]); found {
-					memIf, coll = i, c
+					memIf, coll, memNeg = i, c, neg
 				}
 			}
 		}
@@ -286,6 +313,15 @@ func membershipGuard(fn *ssa.Function, isMember func(ssa.Value) bool, target *ss
 		}
 	}
 	ok = done != nil && done.Dominates(target)
+	// polarity: it is the "equal" side of the test that must not reach the target
+	// (a negated test would let the target be reached exactly when every element is equal)
+	eqSide := memIf.Block().Succs[0]
+	if memNeg {
+		eqSide = memIf.Block().Succs[1]
+	}
+	if blockReaches(eqSide, target, hv) && eqSide != hv {
+		ok = false
+	}
 	for _, e := range loopExits(hm) {
 		if e.from == hm {
 			continue
@@ -301,13 +337,13 @@ func membershipGuard(fn *ssa.Function, isMember func(ssa.Value) bool, target *ss
 		// flag form: "found" breaks out to the same block as exhaustion and is remembered in a
 		// flag (a phi that is false from the header edge and true from every found exit); the
 		// target lies on the false side of a test of that flag
-		ok = flagGuard(hm, done, target)
+		ok = flagGuard(hm, done, target, eqSide)
 	}
 	return ok, memIf, coll
 }
 
 // flagGuard: see membershipGuard.
-func flagGuard(hm, done, target *ssa.BasicBlock) bool {
+func flagGuard(hm, done, target, eqSide *ssa.BasicBlock) bool {
 	in := loopBlocks(hm)
 	for _, ins := range done.Instrs {
 		phi, isPhi := ins.(*ssa.Phi)
@@ -324,6 +360,9 @@ func flagGuard(hm, done, target *ssa.BasicBlock) bool {
 			v := constant.BoolVal(c.Value)
 			if p == hm && v || p != hm && (!(in[p] || hm.Dominates(p)) || !v) {
 				good = false // exhaustion must give false, every other way out of the loop true
+			}
+			if p != hm && !(eqSide == p || eqSide.Dominates(p)) {
+				good = false // … and "true" is set on the equal side of the test
 			}
 		}
 		if !good || phi.Referrers() == nil {
@@ -460,4 +499,45 @@ func valueBlock(v ssa.Value) *ssa.BasicBlock {
 		return i.Block()
 	}
 	return nil
+}
+
+// viaEdge: within one iteration of the innermost loop around `from` (from the
+// function entry when there is none), target is reachable only through the
+// edge from→from.Succs[side]. This is what "the block is guarded by that side
+// of the test" means; plain dominance by the successor is not enough when the
+// successor is a loop header that is also entered along other edges.
+func viaEdge(from *ssa.BasicBlock, side int, target *ssa.BasicBlock) bool {
+	if len(from.Succs) != 2 || from.Succs[0] == from.Succs[1] {
+		return false
+	}
+	to := from.Succs[side]
+	start := from.Parent().Blocks[0]
+	hdr := innermostLoop(from)
+	if hdr != nil {
+		start = hdr
+	}
+	// reachable from start without the edge (and, inside a loop, without going round through the header)
+	seen := map[*ssa.BasicBlock]bool{start: true}
+	work := []*ssa.BasicBlock{start}
+	for len(work) > 0 {
+		b := work[len(work)-1]
+		work = work[:len(work)-1]
+		for i, s := range b.Succs {
+			if b == from && i == side {
+				continue
+			}
+			if hdr != nil && s == hdr {
+				continue // next iteration
+			}
+			if !seen[s] {
+				seen[s] = true
+				work = append(work, s)
+			}
+		}
+	}
+	if seen[target] {
+		return false
+	}
+	// and it is reachable through the edge at all
+	return to == target || blockReaches(to, target, nil)
 }
